@@ -76,7 +76,7 @@ fn boundary_packet(v: V, idw: usize) -> BoxedStrategy<AP> {
     prop_oneof![2 => connect, 2 => connack, 4 => publish, 3 => ack, 2 => subs].boxed()
 }
 
-fn mut_strategy() -> BoxedStrategy<Mut> {
+pub fn mut_strategy() -> BoxedStrategy<Mut> {
     prop_oneof![
         3 => (any::<u16>(), 0u8..8).prop_map(|(pos, bit)| Mut::FlipBit { pos, bit }),
         2 => any::<u16>().prop_map(|pos| Mut::Truncate { pos }),
@@ -87,6 +87,22 @@ fn mut_strategy() -> BoxedStrategy<Mut> {
         1 => (0u8..16).prop_map(|fl| Mut::Flags { fl }),
     ]
     .boxed()
+}
+
+/// a valid packet mutated and re-framed with a correct Remaining Length (so that it reaches the parser of its kind)
+pub fn mutate_packet(ap: &AP, idw: usize, muts: &[Mut]) -> Vec<u8> {
+    let bytes = refcodec::encode(ap, idw);
+    let (frames, _) = refcodec::frame(&bytes);
+    let Frame::Complete { first, body, .. } = &frames[0] else { return bytes };
+    let mut first = *first;
+    let mut body = body.clone();
+    for m in muts {
+        apply_mut(&mut first, &mut body, m);
+    }
+    let mut out = vec![first];
+    refcodec::vbi(body.len() as u32, &mut out);
+    out.extend_from_slice(&body);
+    out
 }
 
 /// mutated valid frame, re-framed with a correct Remaining Length (so that it reaches the parsers), or raw garbage
@@ -213,7 +229,13 @@ impl Observer for Robust {
                 // a QoS2 PUBLISH whose id is in the handled set is a duplicate even when no PUBREC can be sent
                 // (weaker reading: before CONNACK / after an error the answer cannot be transmitted)
                 let handled = w.c.qos2_handled();
+                // on an established connection that stays established the duplicate must really be answered (the PUBREC
+                // fits every Maximum Packet Size >= 6); only when nothing can be transmitted is the handled set enough
+                let must_answer = k == 1 && pre.status == St::Connected && w.t.status == St::Connected && !pre.close_requested && pre.mps_send.map(|m| m >= 6).unwrap_or(true);
                 for f in &frames {
+                    if must_answer {
+                        break;
+                    }
                     if let Frame::Complete { first, body, .. } = f {
                         if first >> 4 == 3 && (first >> 1) & 3 == 2 && body.len() >= 2 {
                             let tl = ((body[0] as usize) << 8) | body[1] as usize;
@@ -252,7 +274,13 @@ impl Observer for Robust {
             return Err(fail("C05.panic", format!("notify_closed/{}", panic_site(p)), p.clone()));
         }
         let cfg = w.t.cfg;
-        let v = w.t.v.unwrap_or(V::V5);
+        // an undetermined server may have adopted a version from a CONNECT that was then rejected: the fresh handshake uses
+        // the version the object reports (C17 decides what auto-detection may adopt)
+        let v = match w.c.protocol_version().as_str() {
+            "V3_1_1" => V::V311,
+            "V5_0" => V::V5,
+            _ => w.t.v.unwrap_or(V::V5),
+        };
         let args = ConnectArgs { clean: true, keep_alive: 0, p: HsProps::default() };
         let as_client = cfg.role == Role::Client || (cfg.role == Role::Any && cfg.ver != CVer::Undetermined);
         let st = if as_client { w.exec(&Op::Connect(args)).clone() } else { w.exec(&Op::PeerPacket(connect_ap(v, &args))).clone() };
